@@ -42,6 +42,8 @@ Recv == /\ pc = "recv"
 Stage1 == /\ pc = "stage1"
           /\ IF pkt.dst = "svc" THEN port' = 0 /\ pc' = "stage2"
              ELSE IF pkt.kind = "err-udp" /\ pkt.field = 0 THEN port' = -1 /\ pc' = "dropped"
+             \* getDstPortSCMP: a quote that does not decode down to a complete UDP / SCMP header is an error
+             ELSE IF pkt.kind \in NoPort \cup Partial THEN port' = -1 /\ pc' = "dropped"
              ELSE /\ port' = IF pkt.kind \in Defaults THEN EndhostPort ELSE pkt.field
                   /\ pc' = "stage2"
           /\ UNCHANGED <<pkt, range, out>>
